@@ -115,7 +115,7 @@ def replay_chunk(args):
             for plat, ents in byp.items():
                 direct[plat] = []
                 for e in ents:
-                    defs = (["X"] if e["x"] != "U" else []) + \
+                    defs = scen.x_defs(e) + \
                            (["HDR=" + render.val_text(e["hdr"])] if e.get("hdr", "U") != "U" else [])
                     # (-include is looked up beside the main file as spelled - C04's recorded finding - so
                     # entries with forced includes keep the canonical spelling of their file here)
